@@ -82,7 +82,8 @@ def split_facts(n, pol):
 
 def _pure(e):
     for x in e.walk():
-        if x.k == "CallExpr" or (x.k in ("BinaryOperator", "CompoundAssignOperator") and x.op in ASSIGN_OPS) or \
+        if (x.k == "CallExpr" and x.name not in ("strcmp", "strncmp", "strlen", "memcmp", "__builtin_expect")) or \
+                (x.k in ("BinaryOperator", "CompoundAssignOperator") and x.op in ASSIGN_OPS) or \
                 (x.k == "UnaryOperator" and x.op in ("++", "--")):
             return False
     return True
@@ -99,9 +100,18 @@ def expand_predicate(func, call):
     if g is None or g is func or g.body is None:
         return None
     stmts = [x for x in g.body.kids() if x is not None and x.k != "NullStmt"]
-    if len(stmts) != 1 or stmts[0].k != "ReturnStmt" or not stmts[0].c or stmts[0].c[0] is None:
+    rexpr = None
+    if len(stmts) == 1 and stmts[0].k == "ReturnStmt" and stmts[0].c and stmts[0].c[0] is not None:
+        rexpr = stmts[0].c[0]
+    elif len(stmts) == 2 and stmts[0].k == "IfStmt" and stmts[1].k == "ReturnStmt" and stmts[1].c and stmts[1].c[0] is not None \
+            and strip_casts(stmts[1].c[0]).v == 0 and len([x for x in stmts[0].c if x is not None]) == 2:
+        # if (C) { return TRUE; }  return FALSE;
+        thn = stmts[0].c[1]
+        ts = [x for x in (thn.kids() if thn.k == "CompoundStmt" else [thn]) if x is not None and x.k != "NullStmt"]
+        if len(ts) == 1 and ts[0].k == "ReturnStmt" and ts[0].c and ts[0].c[0] is not None and strip_casts(ts[0].c[0]).v not in (0, None):
+            rexpr = stmts[0].c[0]
+    if rexpr is None:
         return None
-    rexpr = stmts[0].c[0]
     if not _pure(rexpr):
         return None
     args = call.args()
